@@ -180,7 +180,9 @@ namespace
   {
     plan const &p;
     zw_vocabulary *voc = nullptr;
+    bool own_voc = false;
     std::map <int, zw_query *> Q;
+    std::map <int, zw_vocabulary *> VOC;	// vocabularies built by the plan
     std::map <int, zw_value *> V;
     std::map <int, zw_stack *> I;
     std::map <int, std::string> I_render;
@@ -386,10 +388,71 @@ namespace
     fs_arm_io (s.io);
     alarm ((unsigned) st.p.knob ("watchdog_s", 10));	// the watchdog is per step
 
-    if (op == "PARSE")
+    if (op == "VOC")
+      {
+	// VOC v part part ...: a vocabulary made of the given parts, added in
+	// the given order (core, dw).
+	int v = argi (s, 0);
+	if (st.VOC.count (v))
+	  ev << " skip";
+	else
+	  {
+	    zw_vocabulary *voc = call_checked <zw_vocabulary *>
+	      ("zw_vocabulary_init", nullptr,
+	       [] (zw_error **e) { return zw_vocabulary_init (e); }, &failed, &msg);
+	    if (failed)
+	      violation ("setup", "zw_vocabulary_init: " + msg);
+	    for (size_t k = 1; k < s.args.size (); ++k)
+	      {
+		bool dw = s.args[k] == "dw";
+		zw_vocabulary const *part = call_checked <zw_vocabulary const *>
+		  (dw ? "zw_vocabulary_dwarf" : "zw_vocabulary_core", nullptr,
+		   [&] (zw_error **e) { return dw ? zw_vocabulary_dwarf (e) : zw_vocabulary_core (e); },
+		   &failed, &msg);
+		if (failed)
+		  violation ("setup", "zw_vocabulary_core/dwarf: " + msg);
+		call_checked <bool> ("zw_vocabulary_add", false,
+				     [&] (zw_error **e) { return zw_vocabulary_add (voc, part, e); },
+				     &failed, &msg);
+		if (failed)
+		  violation ("setup", "zw_vocabulary_add: " + msg);
+	      }
+	    st.VOC[v] = voc;
+	    ev << " ok";
+	  }
+      }
+    else if (op == "DROPVOC")
+      {
+	int v = argi (s, 0);
+	if (! st.VOC.count (v))
+	  ev << " skip";
+	else
+	  {
+	    // queries keep what they need from the vocabulary they were compiled with
+	    zw_vocabulary_destroy (st.VOC[v]);
+	    st.VOC.erase (v);
+	    ev << " ok";
+	  }
+      }
+    else if (op == "PARSE")
       {
 	int q = argi (s, 0), pi = argi (s, 1);
-	if (st.Q.count (q) || pi < 0 || (size_t) pi >= st.p.progs.size ())
+	int vi = s.args.size () >= 3 ? argi (s, 2) : -1;
+	zw_vocabulary *usevoc = nullptr;
+	if (vi >= 0)
+	  usevoc = st.VOC.count (vi) ? st.VOC[vi] : nullptr;
+	else
+	  {
+	    // the default vocabulary (core + dwarf) is made on first use, so
+	    // that a plan which builds its own never merges anything else
+	    if (st.voc == nullptr)
+	      {
+		st.own_voc = g_prebuilt_voc == nullptr || st.p.knob ("fresh_voc", 0) != 0;
+		st.voc = st.own_voc ? make_voc () : g_prebuilt_voc;
+	      }
+	    usevoc = st.voc;
+	  }
+	if (st.Q.count (q) || pi < 0 || (size_t) pi >= st.p.progs.size () || usevoc == nullptr)
 	  ev << " skip";
 	else
 	  {
@@ -398,7 +461,7 @@ namespace
 	    if (pp.mode == 0)
 	      qq = call_checked <zw_query *>
 		("zw_query_parse", nullptr,
-		 [&] (zw_error **e) { return zw_query_parse (st.voc, pp.text.c_str (), e); },
+		 [&] (zw_error **e) { return zw_query_parse (usevoc, pp.text.c_str (), e); },
 		 &failed, &msg);
 	    else
 	      {
@@ -413,7 +476,7 @@ namespace
 		size_t len = pp.mode == 2 ? pp.text.size () : strlen (blk);
 		qq = call_checked <zw_query *>
 		  ("zw_query_parse_len", nullptr,
-		   [&] (zw_error **e) { return zw_query_parse_len (st.voc, blk, len, e); },
+		   [&] (zw_error **e) { return zw_query_parse_len (usevoc, blk, len, e); },
 		   &failed, &msg);
 		free (blk);
 	      }
@@ -833,8 +896,6 @@ child_run_plan (plan const &p, int out_fd)
 
   {
     state st (p);
-    bool fresh_voc = p.knob ("fresh_voc", 0) != 0 || g_prebuilt_voc == nullptr;
-    st.voc = fresh_voc ? make_voc () : g_prebuilt_voc;
 
     for (size_t i = 0; i < p.steps.size (); ++i)
       run_step (st, (int) i, p.steps[i]);
@@ -855,7 +916,10 @@ child_run_plan (plan const &p, int out_fd)
     for (auto &v: st.V)
       zw_value_destroy (v.second);
     st.V.clear ();
-    if (fresh_voc)
+    for (auto &v: st.VOC)
+      zw_vocabulary_destroy (v.second);
+    st.VOC.clear ();
+    if (st.own_voc && st.voc != nullptr)
       zw_vocabulary_destroy (st.voc);
   }
 
